@@ -251,14 +251,18 @@ impl Family for JsonFamily {
     }
     fn bounds(&self, quick: bool) -> ChunkBounds {
         ChunkBounds {
-            full_n: if self.reader { if quick { 12 } else { 17 } } else if quick { 16 } else { 19 },
+            full_n: if self.reader { if quick { 12 } else { 17 } } else if quick { 15 } else { 19 },
             pair_n: if quick { 130 } else { 400 },
             triple_n: if quick { 0 } else { 100 },
             interesting_max: if quick { 10 } else { 13 },
             max_groups: if quick { 2 } else { 6 },
+            uniform_max: usize::MAX,
             flush_policies: !self.reader,
             empty_chunks: !self.reader,
         }
+    }
+    fn corrupt_bounds(&self, quick: bool) -> ChunkBounds {
+        ChunkBounds { full_n: if quick { 10 } else { 16 }, ..self.bounds(quick) }
     }
     fn run(&self, inp: &InputSpec, bs: usize, variant: usize, ch: &Chunking) -> Outcome {
         let c = &self.cfgs[inp.base];
